@@ -6,6 +6,8 @@ Generated node functions record every invocation in a shared call log.
 """
 from __future__ import annotations
 
+import asyncio
+
 from typing import Any
 
 from . import common
@@ -243,7 +245,7 @@ def _exercise(n: Any, env: Env, run: bool = False) -> None:
                 SyncRunner().run(g, {k: ([0] if k in mapped else 0) for k in g.inputs.required}, error_handling="continue", max_iterations=4)
             finally:
                 env.log, env.park, env.inflight, env.max_inflight, env.received = saved
-    except Exception:  # noqa: BLE001 - only a warm-up
+    except (Exception, asyncio.CancelledError):  # noqa: BLE001 - only a warm-up
         pass
 
 
@@ -266,7 +268,7 @@ def build_node(spec: dict, gi: int, graphs: list[Any], env: Env, *, async_bodies
             _ = base.defaults
             try:
                 Graph([base], name="warmup")
-            except Exception:  # noqa: BLE001 - only a warm-up
+            except (Exception, asyncio.CancelledError):  # noqa: BLE001 - only a warm-up
                 pass
             return base.with_inputs(in_ren)
         return FunctionNode(
@@ -336,7 +338,7 @@ def build_node(spec: dict, gi: int, graphs: list[Any], env: Env, *, async_bodies
                     pre = gn.map_over(*other, mode="zip")
                     _exercise(pre, env, run=True)
                     gn = pre
-                except Exception:  # noqa: BLE001 - only a warm-up
+                except (Exception, asyncio.CancelledError):  # noqa: BLE001 - only a warm-up
                     pass
             gn = gn.map_over(*spec["mapOver"], mode=spec.get("mapMode", "zip"), error_handling=spec.get("errMode", "raise"))
         return gn
@@ -389,7 +391,7 @@ def _exercise_graph(g: Any, env: Env, async_bodies: bool) -> None:
                     asyncio.run(AsyncRunner().run(g, vals, error_handling="continue", max_iterations=4))
             else:
                 SyncRunner().run(g, vals, error_handling="continue", max_iterations=4)
-    except Exception:  # noqa: BLE001 - only a warm-up
+    except (Exception, asyncio.CancelledError):  # noqa: BLE001 - only a warm-up
         pass
     finally:
         env.log, env.park, env.inflight, env.max_inflight, env.received = saved
